@@ -125,6 +125,12 @@ impl Link {
         self.ops.is_empty()
     }
 
+    /// True when some symbol resolves to the address just past the last opcode.
+    pub fn has_symbol_at_end(&self) -> bool {
+        let end = self.ops.len();
+        self.symbols.values().any(|(addr, _)| *addr == end)
+    }
+
     pub fn len(&self) -> usize {
         self.ops.len()
     }
